@@ -220,30 +220,38 @@ Print Assumptions C12_ops_example.
 
 (* an OID is given and the OIDs of the module list are distinct (what the fixer accepts): the module found
    does not depend on the order of the module files *)
-Theorem C12_lookup_oid_order_independent : forall ms ms' n o,
+Theorem C12_lookup_oid_order_independent : forall ms ms' o,
   ModuleLookup.oids_distinct ms -> Permutation ms ms' ->
-  ModuleLookup.lookup_c ms n (Some o) = ModuleLookup.lookup_c ms' n (Some o).
+  ModuleLookup.lookup_oid ms o = ModuleLookup.lookup_oid ms' o.
 Proof. exact ModuleLookup.lookup_oid_order_independent. Qed.
 Print Assumptions C12_lookup_oid_order_independent.
 
 (* an OID is given: never a module picked by its name; the module that carries the OID is found under any name *)
-Theorem C12_lookup_oid_by_oid_only : forall ms n o,
-  (forall m, ModuleLookup.lookup_c ms n (Some o) = Some m -> In m ms /\ ModuleLookup.m_oid m = Some o) /\
+Theorem C12_lookup_oid_by_oid_only : forall ms o,
+  (forall m, ModuleLookup.lookup_oid ms o = Some m -> In m ms /\ ModuleLookup.m_oid m = Some o) /\
   (forall m, ModuleLookup.oids_distinct ms -> In m ms -> ModuleLookup.m_oid m = Some o ->
-             ModuleLookup.lookup_c ms n (Some o) = Some m).
+             ModuleLookup.lookup_oid ms o = Some m).
 Proof. exact ModuleLookup.lookup_oid_by_oid_only. Qed.
 Print Assumptions C12_lookup_oid_by_oid_only.
 
+(* no OID: the whole list is walked, a second module of the name is an error: the answer does not depend on the
+   order of the module files whatever names they carry (it did while the first module of the name was taken:
+   finding C12-import-edition-by-order, fixed) *)
 Theorem C12_lookup_name_order_independent : forall ms ms' n,
-  ModuleLookup.names_distinct ms -> Permutation ms ms' ->
+  Permutation ms ms' ->
   ModuleLookup.lookup_c ms n None = ModuleLookup.lookup_c ms' n None.
 Proof. exact ModuleLookup.lookup_name_order_independent. Qed.
 Print Assumptions C12_lookup_name_order_independent.
 
+(* ... and a module is found by name exactly when it is the only module of that name *)
+Theorem C12_lookup_name_unique : forall ms n m,
+  ModuleLookup.lookup_c ms n None = ModuleLookup.LFound m <-> filter (ModuleLookup.name_match n) ms = [m].
+Proof. exact ModuleLookup.lookup_name_unique. Qed.
+Print Assumptions C12_lookup_name_unique.
+
 (* renaming step + loop *)
 Theorem C12_lookup_full_order_independent : forall imps ms ms' n o,
   ModuleLookup.oids_distinct ms -> Permutation ms ms' ->
-  (ModuleLookup.effective_oid imps n o = Some None -> ModuleLookup.names_distinct ms) ->
   ModuleLookup.lookup_full imps ms n o = ModuleLookup.lookup_full imps ms' n o.
 Proof. exact ModuleLookup.lookup_full_order_independent. Qed.
 Print Assumptions C12_lookup_full_order_independent.
@@ -253,7 +261,7 @@ Print Assumptions C12_lookup_full_order_independent.
 Theorem C12_lookup_lenient_refuted : exists ms ms' n o,
   ModuleLookup.accepted_b ms = true /\ ModuleLookup.oids_distinct ms /\ Permutation ms ms' /\
   ModuleLookup.lookup_lenient ms n (Some o) <> ModuleLookup.lookup_lenient ms' n (Some o) /\
-  ModuleLookup.lookup_c ms n (Some o) = ModuleLookup.lookup_c ms' n (Some o).
+  ModuleLookup.lookup_oid ms o = ModuleLookup.lookup_oid ms' o.
 Proof. exact ModuleLookup.lookup_lenient_refuted. Qed.
 Print Assumptions C12_lookup_lenient_refuted.
 
